@@ -124,6 +124,9 @@ fn run_check(id: &str, tier: &str) -> i32 {
         "C16" => props::c16::run_c16(&rep),
         "C17" => props::c17::run_c17(&rep),
         "C18" => props::c18::run_c18(&rep),
+        "C19" => props::c19::run_c19(&rep),
+        "C22" => props::c22::run_c22(&rep),
+        "C24" => props::c24::run_c24(&rep),
         "C25" => props::c25::run_c25(&rep),
         "C26" => props::c26::run_c26(&rep),
         "C28" => props::c28::run_c28(&rep),
@@ -145,6 +148,9 @@ fn replay(path: &str) -> i32 {
     };
     let v: serde_json::Value = serde_json::from_str(&text).expect("replay file is JSON");
     let input = &v["input"];
+    if input.get("text0").is_some() {
+        return props::c22::replay_c22(input);
+    }
     let (Some(program), Some(goal)) = (input["program"].as_str(), input["goal"].as_str()) else {
         println!("replay file has no program/goal text; re-run the check: {}", v["property"]);
         return 2;
